@@ -1,13 +1,14 @@
 #!/bin/sh
-# usage: tools/mutant.sh <check id> <file relative to /repo> <sed expression> [tier]
-# applies a one-line mutation to /repo's working tree, runs the check, restores the tree. For sensitivity testing only.
+# usage: tools/mutant.sh <check id> <file relative to the repository> <sed expression> [tier]
+# applies a one-line mutation in a scratch worktree of /repo (never in /repo itself), runs the check against that tree
+# (VERIF_REPO), removes the worktree. For sensitivity testing only.
 id=$1; file=$2; expr=$3; tier=${4:-quick}
-cd /repo || exit 2
-git diff --quiet || { echo "repo dirty"; exit 2; }
+w=/tmp/mut-$$
+git -C /repo worktree add -q --detach $w HEAD || exit 2
+cd $w || exit 2
 sed -i "$expr" "$file"
-if git diff --quiet; then echo "MUTATION DID NOT APPLY"; exit 3; fi
+if git diff --quiet; then echo "MUTATION DID NOT APPLY"; cd /; git -C /repo worktree remove --force $w; exit 3; fi
 git --no-pager diff | grep '^[-+]' | grep -v '^\(---\|+++\)' | head -6
-cd /verif && ./check "$id" --tier "$tier" 2>&1 | grep -v '^INFRA' | tail -4
-rc=$?
-git -C /repo checkout -- . 
-exit $rc
+cd /verif && VERIF_REPO=$w ./check "$id" --tier "$tier" 2>&1 | grep -v '^INFRA' | grep -v '^KNOWN' | tail -4
+git -C /repo worktree remove --force $w
+rm -rf /verif/replays
